@@ -443,6 +443,15 @@ func sortColumns(ssl []sql.SortSpecification, qfields storage.Fields, rows []*st
 				continue
 			}
 
+			if lhs == nil || rhs == nil {
+				// NULL sorts before every value
+				nullFirst := lhs == nil
+				if ssl[sortIdx].OrderingSpecification.Type == sql.DESC {
+					nullFirst = !nullFirst
+				}
+				return nullFirst
+			}
+
 			sortAsc := false
 			switch lhs.(type) {
 			case int64:
